@@ -114,6 +114,12 @@ func engineCABI(rc *RunCtx) *Outcome {
 		// what InitialiseStates(nCells) of the library produces - cell 0 holds the widest vector)
 		width = len(c.stateRows[0])
 	}
+	// the caller's states buffer may be wider than the model needs (a host that sizes one buffer for
+	// several models): the extra columns are not the model's
+	pad := 0
+	if !huge && w.Choose(5) == 4 {
+		pad = 1 + w.Choose(3)
+	}
 	c.refOut, c.refFin = nil, nil
 	if huge {
 		// tens of thousands of cells: the reference is the vectorised Go-API run on Go arrays
@@ -162,7 +168,7 @@ func engineCABI(rc *RunCtx) *Outcome {
 			copy(iv[(b*nIn+x)*c.T:], c.inBlocks[b][x])
 		}
 	}
-	sv := make([]float64, 0, c.N*width)
+	sv := make([]float64, 0, c.N*(width+pad))
 	for i := 0; i < c.N; i++ {
 		if initStates {
 			// garbage: the library must overwrite it
@@ -172,12 +178,15 @@ func engineCABI(rc *RunCtx) *Outcome {
 		} else {
 			sv = append(sv, c.stateRows[i]...)
 		}
+		for j := 0; j < pad; j++ {
+			sv = append(sv, 0) // the surplus columns: zeros, and they stay zeros
+		}
 	}
 	if theDriver == nil {
 		theDriver = startDriver()
 	}
 	d := theDriver
-	hdr := []int32{int32(len(c.Model)), int32(c.I), int32(nIn), int32(c.T), int32(rows), int32(c.P), int32(c.N), int32(width),
+	hdr := []int32{int32(len(c.Model)), int32(c.I), int32(nIn), int32(c.T), int32(rows), int32(c.P), int32(c.N), int32(width + pad),
 		0, int32(c.N), int32(nOut), int32(c.T), 0, 0}
 	if hasStates {
 		hdr[8] = 1
@@ -253,13 +262,13 @@ func engineCABI(rc *RunCtx) *Outcome {
 			}
 		}
 		if hasStates {
-			for j := 0; j < width; j++ {
+			for j := 0; j < width+pad; j++ {
 				o.Checks++
 				e := 0.0
 				if j < len(c.refFin[i]) {
 					e = c.refFin[i][j]
 				}
-				if g := gst[i*width+j]; !bitsEq(g, e) {
+				if g := gst[i*(width+pad)+j]; !bitsEq(g, e) {
 					o.fail("c-abi-state-differs", "cabi/state/"+c.Model, "%s through the C ABI: cell %d final state[%d] = %v, the Go API gives %v (init_states=%v)", c.Model, i, j, g, e, initStates)
 					return o
 				}
@@ -267,6 +276,9 @@ func engineCABI(rc *RunCtx) *Outcome {
 		}
 	}
 	o.probe("cabi_job")
+	if pad > 0 && hasStates {
+		o.probe("cabi_states_buffer_wider_than_the_model_needs")
+	}
 	if c.T == 0 {
 		o.probe("cabi_zero_timesteps")
 	}
